@@ -7,7 +7,7 @@ from vlib import hyp
 from vlib import schemes as S
 from vlib.drbg import entropy
 from vlib.runner import ShardResult, Violation
-from vlib.search_common import Built, check_absent, check_present
+from vlib.search_common import Built, check_absent, check_batch, check_present
 
 SMALL_CONFIGS = {
     "CGKO06.SSE1": [
@@ -157,6 +157,7 @@ def run_present(case):
         built = Built(case)
         for w in built.db:
             check_present(built, w)
+        check_batch(built, list(built.db)[:8])
 
 
 def absent_for(case, built):
